@@ -17,10 +17,13 @@ import (
 	"go/token"
 	"os"
 	"path/filepath"
+	"regexp"
 	"sort"
 	"strconv"
 	"strings"
 )
+
+var refText string // the reference Generated.v (tables of the pinned tree), "" when not given
 
 var fset = token.NewFileSet()
 var files = map[string]*ast.File{}
@@ -268,8 +271,9 @@ func keywords() []kw {
 	return out
 }
 
-// keywordMap: identifier() indexes a package-level map literal from string literals to tag names.
-func keywordMap(fd *ast.FuncDecl) []kw {
+// stringKeyedMap: the function indexes a package-level map literal map[string]<valType>{ "k": Ident, ... }
+// of the given file; returns its entries in source order, nil when there is none.
+func stringKeyedMap(file string, fd *ast.FuncDecl, valType string) []kw {
 	used := map[string]bool{}
 	ast.Inspect(fd, func(n ast.Node) bool {
 		if ix, ok := n.(*ast.IndexExpr); ok {
@@ -279,7 +283,7 @@ func keywordMap(fd *ast.FuncDecl) []kw {
 		}
 		return true
 	})
-	for _, decl := range files["lexer.go"].Decls {
+	for _, decl := range files[file].Decls {
 		gd, ok := decl.(*ast.GenDecl)
 		if !ok || gd.Tok != token.VAR {
 			continue
@@ -300,30 +304,61 @@ func keywordMap(fd *ast.FuncDecl) []kw {
 			if k, ok := mt.Key.(*ast.Ident); !ok || k.Name != "string" {
 				continue
 			}
-			if v, ok := mt.Value.(*ast.Ident); !ok || v.Name != "TokenTag" {
+			if v, ok := mt.Value.(*ast.Ident); !ok || v.Name != valType {
 				continue
 			}
 			var out []kw
 			for _, e := range cl.Elts {
 				kv, ok := e.(*ast.KeyValueExpr)
 				if !ok {
-					die("keyword map: entry is not key: value")
+					die("%s: map entry is not key: value", vs.Names[0].Name)
 				}
 				key, ok := strLit(kv.Key)
 				if !ok {
-					die("keyword map: key is not a string literal")
+					die("%s: map key is not a string literal", vs.Names[0].Name)
 				}
 				tag, ok := kv.Value.(*ast.Ident)
 				if !ok {
-					die("keyword map: value is not a tag name")
+					die("%s: map value is not a constant name", vs.Names[0].Name)
 				}
 				out = append(out, kw{key, tag.Name})
 			}
-			sort.Slice(out, func(i, j int) bool { return out[i].text < out[j].text })
 			return out
 		}
 	}
 	return nil
+}
+
+// orderLikeRef: a map has no order of its own: keep the order of the reference definition for the
+// words it has (so that a pure rewrite of a switch as a map regenerates the same table), new words
+// after them in alphabetical order.
+func orderLikeRef(def string, out []kw) []kw {
+	rank := map[string]int{}
+	if d, ok := refDefinition(refText, def); ok {
+		for i, m := range regexp.MustCompile(`bs "([^"]*)"`).FindAllStringSubmatch(d, -1) {
+			rank[m[1]] = i + 1
+		}
+	}
+	sort.SliceStable(out, func(i, j int) bool {
+		ri, rj := rank[out[i].text], rank[out[j].text]
+		if ri != 0 && rj != 0 {
+			return ri < rj
+		}
+		if (ri != 0) != (rj != 0) {
+			return ri != 0
+		}
+		return out[i].text < out[j].text
+	})
+	return out
+}
+
+// keywordMap: identifier() indexes a package-level map literal from string literals to tag names.
+func keywordMap(fd *ast.FuncDecl) []kw {
+	out := stringKeyedMap("lexer.go", fd, "TokenTag")
+	if out == nil {
+		return nil
+	}
+	return orderLikeRef("keyword_table", out)
 }
 
 // operators parses the `switch c` of Lexer.Next.
@@ -741,7 +776,12 @@ func escapes() [][2]byte {
 func isTypeNames() []string {
 	fd := funcDecl("evaluator.go", "Evaluator", "evalBinaryExpr")
 	var out []string
-	for _, cc := range switchOn(fd, func(e ast.Expr) bool { id, ok := e.(*ast.Ident); return ok && id.Name == "s" }) {
+	var clauses []*ast.CaseClause
+	func() {
+		defer func() { recover() }() // no such switch: try the map form below
+		clauses = switchOn(fd, func(e ast.Expr) bool { id, ok := e.(*ast.Ident); return ok && id.Name == "s" })
+	}()
+	for _, cc := range clauses {
 		for _, e := range cc.List {
 			s, ok := strLit(e)
 			if !ok {
@@ -749,6 +789,15 @@ func isTypeNames() []string {
 			}
 			out = append(out, s)
 		}
+	}
+	if out == nil {
+		// the same names as the keys of a package-level map[string]ValueTag consulted by evalBinaryExpr
+		for _, k := range orderLikeRef("is_type_names", stringKeyedMap("evaluator.go", fd, "ValueTag")) {
+			out = append(out, k.text)
+		}
+	}
+	if out == nil {
+		die("evalBinaryExpr: the type names of `is` were not found")
 	}
 	return out
 }
@@ -871,6 +920,7 @@ func main() {
 	if len(os.Args) == 4 {
 		if rb, err := os.ReadFile(os.Args[3]); err == nil {
 			ref = string(rb)
+			refText = ref
 		}
 	}
 	var b strings.Builder
